@@ -43,6 +43,12 @@ GenMkeyLeaf == {"p1.zone", "p1.app", "p1.weight", "p2.zone", "p2.app", "p2.weigh
 GenMkeyInit == {Empty, [l \in {"pl.s"} |-> "s:b"]}
 GenMustxLeaf == {"pl.lim", "pl.lcheck", "pl.gcheck", "g.limit", "pl.ml"}
 GenMustxInit == {Empty, [l \in {"pl.s"} |-> "s:b"]}
+\* few leaves, three owners: the same leaf is held by two or three intents most of the time
+GenDenseLeaf == {"pl.a", "pl.ab"}
+GenDenseInit == {Empty, [l \in {"pl.s"} |-> "s:b"]}
+\* a case member that is a container populated by several intents on different paths, against a competing case
+GenChoice2Leaf == {"c.x", "c.y", "c.y2"}
+GenChoice2Init == {Empty}
 GenValidLeaf == Fam_valid
 GenValidInit == {Empty, [l \in {"s.host", "pl.n"} |-> IF l = "s.host" THEN "s:abc" ELSE "u:1"],
                  [l \in {"i2.name", "s.hostname"} |-> IF l = "i2.name" THEN "key" ELSE "s:a"]}
